@@ -368,6 +368,7 @@ def check_C02(rep, fl):
 # ----------------------------------------------------------------------------------------
 
 def check_C04(rep, fl):
+    props_store.check_blocking_shard_locks(rep, fl, rule="R04.1")
     props_store.check_removal_inventory(rep, fl)
     # R04.2: with room nothing is evicted or rejected -- and "room" is computed from `used`, which
     # therefore has to equal the real combined cost after every mutation (R01.2): a `used` that
